@@ -220,6 +220,12 @@ def c01(pid, tier, seed, selftest=False):
     # 4. the same statement through the tool: kestrel encrypt | decrypt via files and pipes, fresh and re-used output paths
     import cli_rt
     cli_rt.run(rep, pid, tpl, seed, "C01", "key", thorough)
+    # "for every sender and recipient key pair": thousands of random key pairs (a fault that depends on a key's value)
+    from oneshot import run_oneshot
+    ks = [{"op": "keysweep", "id": "ks%d" % k, "k": k, "n": 1500} for k in range(16 if thorough else 4)]
+    for s_ in ks:
+        rep.case("keysweep:%d" % s_["k"], True)
+    run_oneshot(rep, pid, "keysweep", "noise", ks, tpl, seed, "Trace_Noise", nproc=4, only_prefixes=["C01_"])
     return finish(rep, runs)
 
 
@@ -461,6 +467,12 @@ def c03(pid, tier, seed, selftest=False):
     # path held a longer file before (round trips through the tool, files and pipes)
     import cli_rt
     cli_rt.run(rep, pid, tpl, seed, "C03", "key", thorough)
+    # ... and a modified, truncated or extended file never ends in exit status 0 at the tool, whatever the tool does with
+    # the error on its way out
+    import checks_cli
+    checks_cli.tool_clause(rep, pid, tpl, seed, ["decrypt", "pass_decrypt"],
+                           ["bad_header", "corrupt_header", "truncated_header", "corrupt_first_chunk", "truncated_first_chunk",
+                            "corrupt_later_chunk", "truncated_later_chunk", "appended_data", "other_mode_file"], "C03_")
     return finish(rep, runs)
 
 
@@ -535,6 +547,7 @@ def c04(pid, tier, seed, selftest=False):
     checks_cli.tool_clause(rep, pid, tpl, seed, ["decrypt", "pass_decrypt"],
                            ["none", "corrupt_first_chunk", "corrupt_later_chunk", "truncated_later_chunk", "appended_data", "stdout_closed", "stdout_full",
                             "output_device_full"], "C04_", priors=("absent", "present"))
+    checks_cli.tty_damaged_file(rep, pid, tpl, seed)
     return finish(rep, runs)
 
 
@@ -670,6 +683,11 @@ def c10(pid, tier, seed, selftest=False):
     # at the tool: an output that cannot be written (full device, missing directory, reader gone) or an input that
     # cannot be read ends every command with exit 1 and an error message
     import checks_cli
+    # (a partial write is no failure: to stdout, which takes complete lines first, nothing is lost either)
+    w10 = checks_cli.World(pid, tpl, seed)
+    cfg10 = [{"cmd": cmd, "cause": "none", "prior": "absent", "inp": inp, "outp": "stdout", "kr": "opt", "long": False, "alias": False, "sender": "first"}
+             for cmd in ("decrypt", "pass_decrypt", "encrypt", "pass_encrypt") for inp in ("file", "stdin")]
+    checks_cli.run_configs(rep, pid, "tool-stdout", w10, cfg10, ["C10_"], psize="longline")
     checks_cli.tool_clause(rep, pid, tpl, seed, ["encrypt", "decrypt", "pass_encrypt", "pass_decrypt", "key_generate"],
                            ["stdout_closed", "stdout_full", "output_device_full", "output_dir_missing", "input_read_error"], "C10_")
     return finish(rep, runs)
@@ -745,6 +763,8 @@ def c11(pid, tier, seed, selftest=False):
     runs = st.run_and_validate(rep, pid, "big", scenarios, tpl, seed, nproc=len(scenarios))
     if wide:
         st.run_wide(rep, pid, "wide", wide, tpl, seed)
+    import checks_cli as _cc
+    _cc.process_level_rss_chunkings(rep, pid, tpl, seed, 256 if thorough else 128)
     if thorough or selftest:
         # the same clause at the process boundary: peak RSS of the real binary, large vs small input
         import checks_cli
